@@ -10,6 +10,9 @@ import copy
 from vflib.parts import CH
 
 INPUTS = {
+    # one model referenced from 18 differently named fields: its generated name is built from a set of 18 words
+    "many_refs": [{f"section_{w}": {"title": "t", "body": "b", "n": i} for i, w in enumerate(
+        ["alpha", "bravo", "charlie", "delta", "echo", "foxtrot", "golf", "hotel", "india", "juliet", "kilo", "lima", "mike", "november", "oscar", "papa", "quebec", "romeo"])}],
     # models with the same fields and types but another key order (they compare equal although they are distinct objects)
     "equal_models": [{"first": {"a": 1, "b": 2, "c": 1.5}, "second": {"c": 2.5, "b": 3, "a": 4}, "third": [{"b": 5, "c": 3.5, "a": 6}]}],
     # strings that differ only by case: any order that is not a total order on the strings leaks the set order
@@ -116,7 +119,7 @@ def scen_seeds_literals(ch, params, out):
     """sets of str (literal sets, name parts) cannot be re-ranked from outside: checked by sorted()-ness of the output under two real seeds"""
     import os
     import subprocess
-    inp = ch.choose("input", ["literals", "names", "merge3", "case_literals", "equal_models"], shard=False)
+    inp = ch.choose("input", ["literals", "names", "merge3", "case_literals", "equal_models", "many_refs"], shard=False)
     seed = 1 + ch.pick("seed", params.get("seeds", 6))
     outs = []
     for s in (0, seed):
@@ -130,14 +133,55 @@ def scen_seeds_literals(ch, params, out):
               "output_depends_on_hash_seed")
 
 
+def scen_seeds_cli(ch, params, out):
+    """the real CLI in fresh processes under two hash seeds: several files / a glob for one model name, several models"""
+    import json
+    import os
+    import subprocess
+    import tempfile
+    plan = ch.choose("plan", ["three_files_repeated_m", "glob", "two_models_glob_and_file"], shard=False)
+    seed = 1 + ch.pick("seed", params.get("seeds", 5))
+    fw = ch.choose("framework", ["base", "pydantic"])
+    d = tempfile.mkdtemp(prefix="vf-c06-")
+    try:
+        docs = [{"id": 1, "name": "a", "tags": ["x"]}, {"name": "b", "id": "2", "extra": {"k": 1}}, {"tags": [], "score": 1.5, "id": 3}, {"zeta": None, "id": 4}]
+        for i, doc in enumerate(docs):
+            with open(os.path.join(d, f"item{i}.json"), "w") as f:
+                json.dump(doc, f)
+        if plan == "three_files_repeated_m":
+            args = sum([["-m", "Item", os.path.join(d, f"item{i}.json")] for i in (2, 0, 1)], [])
+        elif plan == "glob":
+            args = ["-m", "Item", os.path.join(d, "item[0-2].json")]      # order within one pattern is unspecified by C16 -> compare as a set of outputs
+        else:
+            args = ["-m", "Item", os.path.join(d, "item0.json"), "-m", "Item", os.path.join(d, "item1.json"), "-m", "Other", os.path.join(d, "item3.json")]
+        outs = []
+        for s_ in (0, seed):
+            env = dict(os.environ)
+            env["PYTHONHASHSEED"] = str(s_)
+            p = subprocess.run(["/venv/bin/python", "-m", "json_to_models"] + args + ["-f", fw], capture_output=True, text=True, env=env, timeout=120, cwd=d)
+            body = p.stdout.split('\n"""\n', 1)[-1] if p.returncode == 0 else "ERROR " + p.stderr[-300:]
+            outs.append(body)
+    finally:
+        import shutil
+        shutil.rmtree(d, ignore_errors=True)
+    out.info = {"plan": plan, "seed": seed, "framework": fw}
+    if plan == "glob":
+        out.checked += 1      # a glob's file order is unspecified (C16); nothing is claimed about it here
+        return
+    out.check(outs[0] == outs[1], "output_depends_on_hash_seed", lambda: f"{plan} [{fw}]: PYTHONHASHSEED=0 vs {seed}:\n{outs[0]}\n---\n{outs[1]}",
+              "output_depends_on_hash_seed")
+
+
 def parts(tier):
     if tier == "quick":
         return [CH("ranks", "vflib.props.c06:scen_ranks", {"inputs": ["merge2", "merge3", "shared", "equal_models"], "max_ranked": 5}, shards=16, timeout=170, path_timeout=60),
                 CH("real_seeds", "vflib.props.c06:scen_seeds_literals", {"seeds": 5}, shards=1, timeout=170, path_timeout=60),
+                CH("real_seeds_cli_files", "vflib.props.c06:scen_seeds_cli", {"seeds": 4}, shards=1, timeout=170, path_timeout=60),
                 CH("same_generation_later_in_process", "vflib.props.c14:scen_history",
                    {"calls": 3, "inputs": ["simple", "shared"], "frameworks": ["pydantic"]}, shards=12, timeout=170, path_timeout=60)]
-    return [CH("ranks", "vflib.props.c06:scen_ranks", {"inputs": ["merge2", "merge3", "shared", "names", "literals", "equal_models"], "max_ranked": 7}, shards=16, timeout=900, path_timeout=60),
-            CH("real_seeds", "vflib.props.c06:scen_seeds_literals", {"seeds": 40}, shards=1, timeout=700, path_timeout=60)]
+    return [CH("ranks", "vflib.props.c06:scen_ranks", {"inputs": ["merge2", "merge3", "shared", "names", "literals", "equal_models"], "max_ranked": 7}, shards=16, timeout=400, path_timeout=60),
+            CH("real_seeds", "vflib.props.c06:scen_seeds_literals", {"seeds": 40}, shards=1, timeout=400, path_timeout=60),
+            CH("real_seeds_cli_files", "vflib.props.c06:scen_seeds_cli", {"seeds": 20}, shards=1, timeout=400, path_timeout=60)]
 
 
 META = {
